@@ -58,13 +58,30 @@ fn main() {
     raise_fd_limit();
     let mut servers = cv::Servers::new();
     let stdin = std::io::stdin();
-    let stdout = std::io::stdout();
-    let mut out = std::io::BufWriter::new(stdout.lock());
+    // watchdog: a case in which a library call never returns (a reader that spins, a respond that
+    // never comes back) must not take the whole check with it: after CASE_LIMIT the case is reported
+    // as HANG-IN-CASE and the process exits; the driver re-runs the cases behind it
+    let case_no = std::sync::Arc::new(std::sync::atomic::AtomicUsize::new(0));
+    let case_start = std::sync::Arc::new(std::sync::Mutex::new(std::time::Instant::now()));
+    {
+        let (cn, cs) = (case_no.clone(), case_start.clone());
+        std::thread::spawn(move || loop {
+            std::thread::sleep(std::time::Duration::from_millis(200));
+            let n = cn.load(std::sync::atomic::Ordering::SeqCst);
+            if n > 0 && cs.lock().unwrap().elapsed() > std::time::Duration::from_secs(40) && cn.load(std::sync::atomic::Ordering::SeqCst) == n {
+                println!("HANG-IN-CASE a call into the library did not return within 40 s");
+                let _ = std::io::stdout().flush();
+                std::process::exit(3);
+            }
+        });
+    }
     for line in stdin.lock().lines() {
         let line = line.unwrap();
         let f: Vec<&str> = line.split(' ').collect();
+        *case_start.lock().unwrap() = std::time::Instant::now();
+        case_no.fetch_add(1, std::sync::atomic::Ordering::SeqCst);
         if f.is_empty() || f[0].is_empty() || f[0].starts_with('#') {
-            writeln!(out, "#").unwrap();
+            println!("#");
             continue;
         }
         let obs = match f[0] {
@@ -78,8 +95,10 @@ fn main() {
             "sd" => sd::run_case(&f),
             other => format!("UNKNOWN-EXECUTOR {}", other),
         };
-        writeln!(out, "{}", obs).unwrap();
+        case_no.store(0, std::sync::atomic::Ordering::SeqCst);
+        println!("{}", obs);
     }
+    let _ = std::io::stdout().flush();
 }
 
 fn raise_fd_limit() {
